@@ -287,10 +287,12 @@ class Base:
                 annotations = self.annotations if not args or not any(self is arg for arg in args) else ()
             else:
                 annotations = simplified.annotations
+        # a leaf carries its own variables and symbolic flag; when the rewriter returned a leaf, they are that leaf's, not self's
+        leaf_source = self if simplified is None else simplified
         if variables is None and op in all_operations:
-            variables = self.variables
+            variables = leaf_source.variables
         if symbolic is None and op in all_operations:
-            symbolic = self.symbolic
+            symbolic = leaf_source.symbolic
 
         return type(self)(
             op,
